@@ -431,6 +431,11 @@ func build(cfg string) explore.System {
 		var c int
 		fmt.Sscanf(cfg, "ambig cap=%d", &c)
 		return newSys([]string{"/a/b", "/a%00%00%00%00%00%00%00%08b", "/a/264=b", "/a%08b"}, c, []int{1, 2}, []int{-1}, nil)
+	case strings.HasPrefix(cfg, "typed"):
+		// sibling names whose last components differ in TYPE only (equal value bytes)
+		var c int
+		fmt.Sscanf(cfg, "typed cap=%d", &c)
+		return newSys([]string{"/a/x", "/a/32=x", "/a/v=1", "/a/seg=1"}, c, []int{1, 2}, []int{-1}, nil)
 	case strings.HasPrefix(cfg, "small"):
 		var c int
 		fmt.Sscanf(cfg, "small cap=%d", &c)
@@ -459,6 +464,7 @@ func main() {
 			}
 			for _, k := range []int{2, 3} {
 				c = append(c, explore.Config{Name: fmt.Sprintf("ambig cap=%d", k), MaxDepth: d2, MaxDev: -1})
+				c = append(c, explore.Config{Name: fmt.Sprintf("typed cap=%d", k), MaxDepth: d2, MaxDev: -1})
 			}
 			// audit of the canonical form: the same search without state de-duplication
 			ad := 3
